@@ -51,6 +51,7 @@ def generate(rng, tier):
             v["fn"] = v["fn"] % 3
             v["lowq"] = 1 + v["lowq"] % 2
             v["lorch"] = 1 + v["lorch"] % 2
+        v["outputs"] = rng.choice([None, None, "empty", "s7"])
         cases.append({"kind": "attrs", "mode": 0, "present": dict(zip(KEYS, p)), "v": v, "shuffle": rng.randint(0, 10 ** 6) if rng.random() < 0.7 else None,
                       "desc": {"kind": "attrs", "n_present": sum(p), "bad_fn": bool(p[0] and v["fn"] == 3),
                                "bad_flag": bool((p[6] and v["lowq"] == 3) or (p[7] and v["lorch"] == 3))}})
@@ -165,6 +166,8 @@ def build_kwargs(case):
         if tr:
             m["Transform"] = tr
         kw["Merging"] = m
+    if v.get("outputs") is not None:        # "Outputs" present, with or without its optional "StemName"
+        kw["Outputs"] = {} if v["outputs"] == "empty" else {"StemName": v["outputs"]}
     if case.get("shuffle") is not None:     # a dict / JSON file lists its keys in any order; only their presence and values matter
         import random
         items = list(kw.items())
@@ -315,7 +318,7 @@ def run_impl(pystog, case):
             st = pystog.StoG(**kw)
         except Exception as e:
             return {"status": STATUS.get(type(e).__name__, 9.0), "error": "%s: %s" % (type(e).__name__, e), "kwargs": kw}
-        return {"attrs": attrs_of(st), "dr": np.asarray(st.dr, float).tolist(), "kwargs": kw}
+        return {"attrs": attrs_of(st), "dr": np.asarray(st.dr, float).tolist(), "kwargs": kw, "stem": st.stem_name}
     base = os.path.join(C.SCRATCH, "c19_" + hashlib.sha256(json.dumps(case, sort_keys=True, default=str).encode()).hexdigest()[:12])
     shutil.rmtree(base, ignore_errors=True)
     da, db, dc = (os.path.join(base, n) for n in ("cli", "lib", "lib3"))
@@ -481,6 +484,9 @@ def oracle(pystog, case, res):
         if "status" in res:
             return "valid configuration rejected: %s (kwargs %s)" % (res["error"], json.dumps(res["kwargs"], default=str)[:300])
         a = res["attrs"]
+        want_stem = v["outputs"] if v.get("outputs") not in (None, "empty") else "out"
+        if case["mode"] == 0 and "stem" in res and res["stem"] != want_stem:
+            return "Outputs %s: the stem name is %r, expected %r" % ({None: "absent", "empty": "present without StemName"}.get(v.get("outputs"), "with StemName"), res["stem"], want_stem)
         rmax = v["rmax"] if p["rmax"] else 50.0
         if case["mode"] == 1:    # flag form: the parser's documented defaults (Rpoints 5000 -> step Rmax/5000)
             rp = v["rpoints"] if p["rpoints"] else 5000
